@@ -170,7 +170,7 @@ func checkC06(c *run.Ctx) {
 	c.Parallel("list", n, func(i int, r *rand.Rand) {
 		uid := &gen.UID{}
 		id := run.CaseID("list", i)
-		kind := []string{"EdDSA", "EdDSA", "EdDSA", "ES512", "PS512", "ES256-signer"}[i%6]
+		kind := []string{"EdDSA", "EdDSA", "EdDSA", "ES512", "PS512", "ES256-signer"}[(i/2)%6] // i%2 decides about the unknown step
 		kp := all[kind][0]
 		l := &c06List{}
 		maxDepth := r.IntN(5)
@@ -229,6 +229,16 @@ func checkC06(c *run.Ctx) {
 		penvCopy := copyEnv(penv)
 		if penv == nil {
 			penvCopy = nil
+		}
+		// every fourth list: some command steps already carry a signature record from an earlier signing
+		// (another key, other fields); signing replaces it like any other
+		if r.IntN(4) == 0 {
+			allCommandSteps(steps, func(_ string, s *pipeline.CommandStep) {
+				if r.IntN(2) == 0 {
+					s.Signature = &pipeline.Signature{Algorithm: "ES512", SignedFields: []string{"command", "env", "env::OLD", "matrix", "plugins", "repository_url"}, Value: "eyJhbGciOiJFUzUxMiJ9..c3RhbGU"}
+					c.Count("command_steps_with_a_stale_signature_before_signing", 1)
+				}
+			})
 		}
 		twin := util.DeepCopy(steps)
 		repo := "git@github.com:org/repo.git"
